@@ -95,6 +95,8 @@ func ruleC09(c *Ctx) []*report.Result {
 		return []*report.Result{r}
 	}
 	a := c.AFmt()
+	safeFam, _ := c.installers("override", 1)
+	unsafeFam, _ := c.installers("override", 2)
 	// events by function
 	evByFn := map[*ssa.Function][]writeEvent{}
 	for _, w := range c.writeEvents() {
@@ -236,6 +238,20 @@ func ruleC09(c *Ctx) []*report.Result {
 						_ = setModes
 					} else {
 						r.Check(len(starts) == 1 && fl.before(starts[0], w.call), construct+" / classification bracket", pos, "the printer must bracket the write with exactly one start*/restore pair")
+						// the bracket is the one of the method's side: a safe
+						// emitter installs the safe override, an unsafe emitter
+						// never does
+						if len(starts) == 1 {
+							if sf := starts[0].Common().StaticCallee(); sf != nil {
+								_, isSafeInst := safeFam[sf]
+								_, isUnsafeInst := unsafeFam[sf]
+								if sp.side == "safe" {
+									r.Check(isSafeInst && !isUnsafeInst, construct+" / bracket of its side", pos, "a safe emitter must open its bracket with the helper that installs the safe override, not "+sf.Name())
+								} else {
+									r.Check(!isSafeInst, construct+" / bracket of its side", pos, "an unsafe emitter opens its bracket with "+sf.Name()+", which installs the safe override")
+								}
+							}
+						}
 						// configurations from A-fmt (a closure made by the method and
 						// run by a helper is part of the method)
 						evs := evByFn[fn]
